@@ -36,13 +36,23 @@ Theorem C08_writes_exact : forall cfg so lo ops,
   s_sock (snd (run cfg so lo st0 ops)) = writes_of cfg ops.
 Proof. intros. exact (one_write_run cfg so lo ops st0). Qed.
 
-(* The queue is touched only by a client with stream management on, and never
-   for SM requests/answers sent through Send (the push precedes the write, so it
-   also happens when the transport was never connected). *)
+(* The queue is touched only by a client with active stream management (enabled,
+   and a session exists), never for SM requests/answers (sent through Send or as
+   a raw string), and only a packet whose write SUCCEEDED stays on it: the push
+   and the write are one step (Client.sendMu), a refused packet is dropped again. *)
 Theorem C08_queue : forall cfg so lo st o,
   s_queue (fst (step cfg so lo st o)) =
-  if reaches cfg o && pushes cfg o then q_push (s_queue st) (op_data o) else s_queue st.
+  if reaches cfg o && pushes cfg o then
+    if is_nil (snd (step cfg so lo st o)) then q_push (s_queue st) (op_data o)
+    else q_drop_last (q_push (s_queue st) (op_data o))
+  else s_queue st.
 Proof. exact step_queue. Qed.
+
+Theorem C08_queue_held_iff_sent : forall cfg so lo st o,
+  q_items (s_queue (fst (step cfg so lo st o))) =
+  if reaches cfg o && pushes cfg o && is_nil (snd (step cfg so lo st o))
+  then q_items (q_push (s_queue st) (op_data o)) else q_items (s_queue st).
+Proof. exact step_queue_items. Qed.
 
 (* ---- a failed write is reported; a successful one returns nil ---- *)
 
@@ -164,13 +174,13 @@ Proof. exact (run_sched_complete str). Qed.
 Example C08_example :
   let so := fun k => match k with 1 => WErr 1 | 2 => WShort 1 | _ => WOk end in
   let lo := fun _ : nat => WOk in
-  let ops := [OSend [60; 97; 47; 62]%N false; OSendIQ [1]%N TOther; OSendRaw [2; 3]%N;
+  let ops := [OSend [60; 97; 47; 62]%N false; OSendIQ [1]%N TOther; OSendRaw [2; 3]%N false;
               OSend [9; 9]%N true; OSendIQ [7]%N TGet] in
   let r := run (mkC RClient true true CUp) so lo st0 ops in
   fst r = [RNil; RReject; RErr ESock; RErr EShort; RNil] /\
   s_sock (snd r) = [[60; 97; 47; 62]; [2; 3]; [9; 9]; [7]]%N /\
   stream so 0 (s_sock (snd r)) = [60; 97; 47; 62; 2; 9; 7]%N /\
-  map snd (q_items (s_queue (snd r))) = [[60; 97; 47; 62]; [2; 3]; [7]]%N /\
+  map snd (q_items (s_queue (snd r))) = [[60; 97; 47; 62]; [7]]%N /\
   s_log (snd r) = [log_prefix; [60; 97; 47; 62]; log_sep; log_prefix; log_prefix;
                    log_prefix; [7]; log_sep]%N.
 Proof. repeat split. Qed.
@@ -188,6 +198,7 @@ Print Assumptions C08_one_write.
 Print Assumptions C08_rejected_iq_no_write.
 Print Assumptions C08_writes_exact.
 Print Assumptions C08_queue.
+Print Assumptions C08_queue_held_iff_sent.
 Print Assumptions C08_failure_reported.
 Print Assumptions C08_sock_error_reported.
 Print Assumptions C08_logger_faults_reported.
